@@ -46,6 +46,9 @@ type params struct {
 	// chains are (re-)activated in mid-history: retried deployment of a contract that is not newer (new unique id announced,
 	// chain info unchanged), take-over by a newer compass (chain info moves to the new unique id), re-announcement (activate.go)
 	Activations bool `json:"activations,omitempty"`
+	// the chains got their compass in ONE deployment round: a newer compass activated on every chain with the same
+	// unique id right after bring-up (crossref.go); only in histories with two chains
+	SharedCompassID bool `json:"shared_compass_id,omitempty"`
 }
 
 // stake vectors (ugrain). Every validator is below the 25 % jailing protection unless noted;
@@ -108,6 +111,7 @@ func cases(tier string, seed int64) []fw.Case {
 		}
 		p.Calm = isEdgeSlot(seed, i)
 		p.Activations = hasActivations(i)
+		p.SharedCompassID = p.NChains > 1 && hasSharedCompassID(seed, i)
 		out = append(out, fw.MkCase(fmt.Sprintf("hist-%03d-%s", i, p.Focus), s, p))
 	}
 	return out
@@ -125,6 +129,9 @@ func init() {
 			"Three of every eight histories (re-)activate their chains 1-3 times in mid-history through EvmKeeper.ActivateChainReferenceID at block boundaries (own random stream; before / right after batch-building blocks or anywhere): " +
 			"a retried deployment of a contract that is not newer (new unique id announced, chain info unchanged), a take-over by a newer compass (chain info moves to a new unique id), a re-announcement of the current id; " +
 			"batches are built, re-estimated, confirmed, timed out, executed and their confirmations replayed in every such state. " +
+			"Half of the two-chain histories (a quarter of all) start after one deployment round that gave every chain the SAME compass unique id (a newer compass activated on all chains through EvmKeeper.ActivateChainReferenceID before the first batch); " +
+			"in every history genuine signatures (built and re-estimated stage, plain or equivalent spelling) are also replayed under chain reference ids that are not the batch's - the sibling chain (unique id shared or not), a chain reference id paloma does not know - " +
+			"after every block of a two-chain history on a fork (every 4th block otherwise) and in a sample of real transactions (own random stream). " +
 			"'evaluations' counts oracle decisions: one per bad-signature-evidence submission (fork or real tx; who may be jailed) and one per (newly jailed or attesting validator x pruned message). " +
 			"A distinct non-trivial case is a distinct (checkpoint stage, batch state at replay time, subject variant, submitter class, outcome; in histories with activations also the activation state of the chain at issue and at submission time) evidence tuple or a distinct " +
 			"(evidence-share bucket, position within one share of the 10% floor and 10*attested-total, delivery kind, shares attesting before/after a re-delivery, #attesters, #jailed) prune tuple.",
@@ -132,6 +139,7 @@ func init() {
 			"'issued' = BytesToSign of a batch stored in skyway state at some block boundary (what pigeons are handed for signing); every batch state change is visible at a boundary because batches are built/re-estimated only in end blockers",
 			"the compass unique id in the evm chain info changes only when ActivateChainReferenceID is called with a contract id newer than the active one (monitor's model, cross-checked against the chain info after every activation; INCONCLUSIVE on disagreement); the reference checkpoint of an evidence subject uses the id in force at submission time",
 			"genuine signatures are produced with the validators' registered keys over exactly those bytes, with the personal-message prefix pigeons use",
+			"every validator has ONE eth key, registered on all chains of the world; the checkpoint of an evidence subject is the one made from the compass unique id of the chain the evidence message names (the handler's documented reading), so in a world whose chains share the unique id a batch's published checkpoint is a published checkpoint under either chain reference id; evidence naming a chain reference id paloma does not know may jail nobody",
 			"all pigeons keep their keep-alive current, support all chains and have balances, so bad-signature evidence and message pruning are the only jailing sources in the histories; any other jailing makes the case INCONCLUSIVE",
 			"fork replays call the real MsgServiceRouter handler on a cache context (no ante); a sample of replays goes through real transactions with the full ante chain",
 			"control: a signature by a registered validator key over a never-issued checkpoint must jail that validator (else INCONCLUSIVE, not a violation of the statement)",
@@ -140,7 +148,10 @@ func init() {
 		Run:   run,
 		MinCounters: []string{"checkpoints_archived:built", "checkpoints_archived:re-estimated", "confirmations_archived", "replay_fork", "replay_realtx", "control_bad_sig_jailed", "prune_events", "prune_legit_jailings",
 			"prune_redelivered_evidence_before_and_after", "prune_floor_edge:one-unit-below/total%10!=0",
-			"replay_tried_activation:issued-in=unique-ids-differ/signed=built", "replay_tried_activation:issued-in=newer-contract/signed=built"},
+			"replay_tried_activation:issued-in=unique-ids-differ/signed=built", "replay_tried_activation:issued-in=newer-contract/signed=built",
+			"worlds_with_shared_compass_unique_id",
+			"replay_chain_ref:sibling-chain/same-unique-id/signed=built", "replay_chain_ref:sibling-chain/same-unique-id/signed=re-estimated", "replay_chain_ref:sibling-chain/same-unique-id/realtx",
+			"replay_chain_ref:sibling-chain/different-unique-id/signed=built", "replay_chain_ref:unknown-chain/signed=built"},
 		Workers:  16,
 		TimeoutS: 3600, // generous: the watchdog only guards against hangs (a 900-block history is ~25 s CPU)
 	})
